@@ -4,14 +4,14 @@ CONSTANTS
   Tags = {0, 1}
   Ints <- MCInts
   Strs <- MCStrs
-  FInts = {1}
-  FStrs <- MCFStrsSmall
-  FBoth <- MCFBothSmall
-  Res <- MCResSmall
+  FInts = {0, 1, 2}
+  FStrs <- MCFStrs
+  FBoth <- MCFBoth
+  Res <- MCRes
   ReSet <- MCReSet
   Kinds = {"plain", "raw"}
   ValKinds = {"M", "S", "B", "E"}
-  MaxOps = 4
+  MaxOps = 6
   MaxVals = 3
   Break = "none"
   IntIdx <- MCIntIdx
